@@ -100,23 +100,24 @@ Proof. reflexivity. Qed.
 
 (* Each axis of the evaluator is the reference axis of the deviated expression: same nodes, same (proximity) order. *)
 Lemma axis_agrees D a a' n :
-  x_axis true a = Some a' -> (is_doc n = false \/ downward a = true) ->
-  d_axis D a n = (r_axis D a' n, None).
+  x_axis true a = Some a' -> d_axis D a n = (r_axis D a' n, None).
 Proof.
-  intros Hx Hd. destruct n as [p t].
-  destruct a; cbn in Hx; inversion Hx; subst; clear Hx; cbn [d_axis r_axis fst snd];
-    try reflexivity;
-    try (destruct Hd as [Hd|Hd]; [rewrite Hd|discriminate Hd]; try reflexivity).
-  - (* following *)
-    rewrite filter_all_true; [reflexivity|]. intros x _. destruct (is_prefix p (fst x)); reflexivity.
-  - (* preceding *)
-    unfold all_nodes. cbn [before fst].
-    destruct p as [|i p]; [discriminate Hd|]. cbn [path_eqb]. cbn [rev].
-    rewrite filter_app. cbn [filter is_doc fst null]. cbn.
-    rewrite app_nil_r. rewrite filter_all_true; [reflexivity|].
-    intros x Hx. apply in_rev in Hx. apply before_subset in Hx.
-    pose proof (descendants_doc_nonnil D) as F. rewrite Forall_forall in F. rewrite (F x Hx).
-    destruct (is_prefix (fst x) (i :: p)); reflexivity.
+  intros Hx. destruct n as [p t].
+  destruct (is_doc (p, t)) eqn:Hd.
+  - (* the root node *)
+    destruct p as [|i p]; [|discriminate Hd].
+    destruct a; cbn in Hx; inversion Hx; subst; clear Hx; reflexivity.
+  - destruct a; cbn in Hx; inversion Hx; subst; clear Hx; cbn [d_axis r_axis fst snd]; rewrite ?Hd; try reflexivity.
+    + (* following *)
+      rewrite filter_all_true; [reflexivity|]. intros x _. destruct (is_prefix p (fst x)); reflexivity.
+    + (* preceding *)
+      unfold all_nodes. cbn [before fst].
+      destruct p as [|i p]; [discriminate Hd|]. cbn [path_eqb]. cbn [rev].
+      rewrite filter_app. cbn [filter is_doc fst null]. cbn.
+      rewrite app_nil_r. rewrite filter_all_true; [reflexivity|].
+      intros x Hx. apply in_rev in Hx. apply before_subset in Hx.
+      pose proof (descendants_doc_nonnil D) as F. rewrite Forall_forall in F. rewrite (F x Hx).
+      destruct (is_prefix (fst x) (i :: p)); reflexivity.
 Qed.
 
 (* ---------------------------------------------------------------- node tests *)
@@ -124,10 +125,9 @@ Lemma unknown_prefix_bound m q ns : ns_get m q = Some ns -> unknown_prefix m (So
 Proof. intro H. unfold unknown_prefix. rewrite H. reflexivity. Qed.
 
 Lemma test_agrees m t t' c :
-  x_test true m t = Some t' -> (is_doc c && doc_passes_wrongly t = false) ->
-  d_test m t c = Ok (r_test t' c).
+  x_test true m t = Some t' -> d_test m t c = Ok (r_test t' c).
 Proof.
-  intros Hx Hd. destruct c as [p n]. unfold r_test, d_test, is_tagnode.
+  intros Hx. destruct c as [p n]. unfold r_test, d_test, is_tagnode.
   destruct t as [pre l|pre|k|tg]; cbn in Hx.
   - (* NameMatchTest *)
     destruct pre as [q|].
@@ -145,11 +145,11 @@ Proof.
     + inversion Hx; subst; clear Hx. cbn. destruct (is_doc (p, n)) eqn:Hdoc; cbn; [reflexivity|].
       destruct n as [i pay kids]; destruct pay; cbn; reflexivity.
   - (* NodeTypeTest *)
-    destruct (is_doc (p, n)) eqn:Hdoc; cbn in Hd |- *.
-    + destruct k; cbn in Hd; try discriminate. inversion Hx; subst. reflexivity.
+    destruct (is_doc (p, n)) eqn:Hdoc.
+    + destruct k; inversion Hx; subst; reflexivity.
     + destruct k; inversion Hx; subst; clear Hx; destruct n as [i pay kids]; destruct pay; reflexivity.
   - (* ProcessingInstructionTest *)
-    inversion Hx; subst; clear Hx. destruct (is_doc (p, n)) eqn:Hdoc; cbn in Hd |- *; [discriminate|].
+    inversion Hx; subst; clear Hx. destruct (is_doc (p, n)) eqn:Hdoc; [reflexivity|].
     destruct n as [i pay kids]; destruct pay; reflexivity.
 Qed.
 
@@ -175,6 +175,8 @@ Definition attr_list (ns l : str) (c : nd) : list str :=
   if is_tagnode c then match get_attr ns l (tag_attrs c) with Some v => [v] | None => [] end else [].
 Definition res_ns (m : nsmap) (p : option str) : str :=
   match p with Some q => opt_default [] (ns_get m q) | None => [] end.
+Lemma attr_list_of m p l c : attr_list (res_ns m p) l c = match attr_of m p l c with Some v => [v] | None => [] end.
+Proof. unfold attr_list, attr_of, res_ns. destruct (is_tagnode c); reflexivity. Qed.
 
 Lemma r_attr_bound m c p l : pfx_ok m p = true -> r_attr m c p l = Some (attr_list (res_ns m p) l c).
 Proof.
@@ -265,23 +267,22 @@ Qed.
 
 Lemma attr_value_eval m p a c pos size :
   hazard m (AttributeValue p a) c = false -> bound m (AttributeValue p a) = true ->
-  is_tagnode c = true /\
   d_expr m (AttributeValue p a) c pos size = Ok (PStr (head_or_empty (attr_list (res_ns m p) a c))) /\
   r_expr m (AttributeValue p a) c pos size = Some (RAttrs (attr_list (res_ns m p) a c)).
 Proof.
-  cbn [hazard bound d_expr r_expr]. intros Hh Hb. apply orb_false_elim in Hh as [Ht Hj].
-  apply negb_false_iff in Ht. split; [exact Ht|].
-  rewrite (unknown_prefix_ok _ _ Hb), Ht, (r_attr_bound _ _ _ _ Hb). split; [|reflexivity].
-  rewrite (delb_attr_is_ref m p a c Ht Hj Hb). unfold attr_list. rewrite Ht.
+  cbn [hazard bound d_expr r_expr]. intros Hj Hb.
+  rewrite (unknown_prefix_ok _ _ Hb), (r_attr_bound _ _ _ _ Hb). split; [|reflexivity].
+  unfold attr_list. destruct (is_tagnode c) eqn:Ht; [|reflexivity].
+  rewrite (delb_attr_is_ref m p a c Ht Hj Hb).
   destruct (get_attr (res_ns m p) a (tag_attrs c)); reflexivity.
 Qed.
 
-Lemma attr_list_cases m p a c : is_tagnode c = true ->
+Lemma attr_list_cases m p a c :
   (attr_list (res_ns m p) a c = [] /\ attr_missing m p a c = true /\ attr_empty m p a c = false) \/
   (exists v, attr_list (res_ns m p) a c = [v] /\ attr_missing m p a c = false /\ attr_empty m p a c = null v).
 Proof.
-  intro Ht. unfold attr_list, attr_missing, attr_empty, res_ns. rewrite Ht.
-  destruct (get_attr _ a (tag_attrs c)) as [v|]; [right; exists v; auto|left; auto].
+  rewrite attr_list_of. unfold attr_missing, attr_empty.
+  destruct (attr_of m p a c) as [v|]; [right; exists v; auto|left; auto].
 Qed.
 
 Lemma orb_false_r' b : b || false = b. Proof. destruct b; reflexivity. Qed.
@@ -312,34 +313,34 @@ Proof.
   - apply ty_str_inv in Ha as (s1 & ->). apply ty_str_inv in Hb as (s2 & ->).
     destruct Ho as [-> | ->]; cbn; rewrite ?orb_false_r'; eauto.
   - apply ty_str_inv in Ha as (s1 & ->). apply ty_attr_inv in Hb as (q & k & ->).
-    destruct (attr_value_eval m q k c pos size Hhr Hbr) as (Ht & Hd & Hr).
+    destruct (attr_value_eval m q k c pos size Hhr Hbr) as (Hd & Hr).
     assert (G : forall o', r_expr m (BooleanOperator o' (AnyValue (VStr s1)) (AttributeValue q k)) c pos size =
                            match o' with OpAnd | OpOr => r_expr m (BooleanOperator o' (AnyValue (VStr s1)) (AttributeValue q k)) c pos size
                            | _ => option_map RBool (r_compare o' (RStr s1) (RAttrs (attr_list (res_ns m q) k c))) end).
     { intro o'. destruct o'; try reflexivity; cbn [r_expr] in *; rewrite Hr; reflexivity. }
     rewrite d_expr_binop, Hd. cbn [bind d_expr].
-    destruct (attr_list_cases m q k c Ht) as [(E & Hm & _) | (v & E & Hm & _)];
+    destruct (attr_list_cases m q k c) as [(E & Hm & _) | (v & E & Hm & _)];
       destruct Ho as [-> | ->]; rewrite G, E; cbn in He; rewrite Hm in He; cbn in He |- *.
     + rewrite str_eqb_sym_nil. destruct (null s1); [discriminate He|eauto].
     + rewrite str_eqb_sym_nil. destruct (null s1); [eauto|discriminate He].
     + rewrite ?orb_false_r'. eauto.
     + rewrite ?orb_false_r'. eauto.
   - apply ty_attr_inv in Ha as (q & k & ->). apply ty_str_inv in Hb as (s2 & ->).
-    destruct (attr_value_eval m q k c pos size Hhl Hbl) as (Ht & Hd & Hr).
+    destruct (attr_value_eval m q k c pos size Hhl Hbl) as (Hd & Hr).
     assert (G : forall o', r_expr m (BooleanOperator o' (AttributeValue q k) (AnyValue (VStr s2))) c pos size =
                            match o' with OpAnd | OpOr => r_expr m (BooleanOperator o' (AttributeValue q k) (AnyValue (VStr s2))) c pos size
                            | _ => option_map RBool (r_compare o' (RAttrs (attr_list (res_ns m q) k c)) (RStr s2)) end).
     { intro o'. destruct o'; try reflexivity; cbn [r_expr] in *; rewrite Hr; reflexivity. }
     rewrite d_expr_binop, Hd. cbn [bind d_expr].
-    destruct (attr_list_cases m q k c Ht) as [(E & Hm & _) | (v & E & Hm & _)];
+    destruct (attr_list_cases m q k c) as [(E & Hm & _) | (v & E & Hm & _)];
       destruct Ho as [-> | ->]; rewrite G, E; cbn in He; rewrite Hm in He; cbn in He |- *.
     + destruct s2; cbn in He |- *; try discriminate He; eauto.
     + destruct s2; cbn in He |- *; try discriminate He; eauto.
     + rewrite ?orb_false_r'. eauto.
     + rewrite ?orb_false_r'. eauto.
   - apply ty_attr_inv in Ha as (q1 & k1 & ->). apply ty_attr_inv in Hb as (q2 & k2 & ->).
-    destruct (attr_value_eval m q1 k1 c pos size Hhl Hbl) as (Ht & Hd1 & Hr1).
-    destruct (attr_value_eval m q2 k2 c pos size Hhr Hbr) as (_ & Hd2 & Hr2).
+    destruct (attr_value_eval m q1 k1 c pos size Hhl Hbl) as (Hd1 & Hr1).
+    destruct (attr_value_eval m q2 k2 c pos size Hhr Hbr) as (Hd2 & Hr2).
     assert (G : forall o', r_expr m (BooleanOperator o' (AttributeValue q1 k1) (AttributeValue q2 k2)) c pos size =
                            match o' with OpAnd | OpOr => r_expr m (BooleanOperator o' (AttributeValue q1 k1) (AttributeValue q2 k2)) c pos size
                            | _ => option_map RBool (r_compare o' (RAttrs (attr_list (res_ns m q1) k1 c)) (RAttrs (attr_list (res_ns m q2) k2 c))) end).
@@ -347,8 +348,8 @@ Proof.
     rewrite d_expr_binop, Hd1, Hd2. cbn [bind].
     assert (He' : attr_missing m q1 k1 c || attr_missing m q2 k2 c = false) by (destruct Ho as [-> | ->]; exact He).
     apply orb_false_elim in He' as [M1 M2].
-    destruct (attr_list_cases m q1 k1 c Ht) as [(E1 & Hm1 & _) | (v1 & E1 & _)]; [congruence|].
-    destruct (attr_list_cases m q2 k2 c Ht) as [(E2 & Hm2 & _) | (v2 & E2 & _)]; [congruence|].
+    destruct (attr_list_cases m q1 k1 c) as [(E1 & Hm1 & _) | (v1 & E1 & _)]; [congruence|].
+    destruct (attr_list_cases m q2 k2 c) as [(E2 & Hm2 & _) | (v2 & E2 & _)]; [congruence|].
     destruct Ho as [-> | ->]; rewrite G, E1, E2; cbn; rewrite ?orb_false_r'; eauto.
 Qed.
 
@@ -363,10 +364,10 @@ Proof.
   - cbn in Hty; inversion Hty; subst. exists (PStr s), (RStr s). cbn. eauto.
   - cbn in Hty; inversion Hty; subst. exists (PInt n), (RNum n). cbn. eauto.
   - cbn in Hty; inversion Hty; subst.
-    destruct (attr_value_eval m p l c pos size Hh Hb) as (Ht & Hd & Hr).
+    destruct (attr_value_eval m p l c pos size Hh Hb) as (Hd & Hr).
     eexists _, _. split; [exact Hd|]. split; [exact Hr|]. cbn.
     exists (attr_list (res_ns m p) l c). repeat split.
-    unfold attr_list. rewrite Ht. destruct (get_attr _ l (tag_attrs c)); eauto.
+    rewrite attr_list_of. destruct (attr_of m p l c); eauto.
   - (* HasAttribute *)
     cbn in Hty; inversion Hty; subst. cbn [hazard bound] in Hh, Hb. cbn [d_expr r_expr].
     rewrite (unknown_prefix_ok _ _ Hb), (r_attr_bound _ _ _ _ Hb). unfold attr_list.
@@ -426,9 +427,9 @@ Proof.
       assert (Htb : truthy v = to_bool rv).
       { apply (truthy_to_bool tx); [exact Hv|]. intros ->. apply ty_attr_inv in Hx as (q & k & ->).
         cbn in Hhc.
-        destruct (attr_value_eval m q k c pos size Hhx Hbx) as (Ht & _ & Hr').
+        destruct (attr_value_eval m q k c pos size Hhx Hbx) as (_ & Hr').
         rewrite Hr' in Hr. inversion Hr; subst.
-        destruct (attr_list_cases m q k c Ht) as [(E & _) | (w & E & _ & Hem)]; rewrite E; [discriminate|].
+        destruct (attr_list_cases m q k c) as [(E & _) | (w & E & _ & Hem)]; rewrite E; [discriminate|].
         intro Hc. inversion Hc; subst. rewrite Hhc in Hem. discriminate. }
       apply orb_prop in E2 as [E|E]; apply str_is_eq in E; subst name.
       - exists (PBool (negb (truthy v))), (RBool (negb (to_bool rv))).
@@ -496,14 +497,9 @@ Lemma step1_agrees D m s rs n :
 Proof.
   destruct s as [a t ps]. unfold step_ok, x_step. destruct (x_axis true a) as [a'|] eqn:Ha; [|discriminate].
   destruct (x_test true m t) as [t'|] eqn:Ht; [|discriminate]. intros Hok Hrs. inversion Hrs; subst; clear Hrs.
-  apply andb_prop in Hok as [Hok Hhz]. apply andb_prop in Hok as [Hok Hpo]. apply andb_prop in Hok as [Hdn Hdc].
-  assert (Hax : d_axis D a n = (r_axis D a' n, None)).
-  { apply axis_agrees; [exact Ha|]. apply orb_prop in Hdn as [H|H]; [left; apply negb_true_iff; exact H|right; exact H]. }
-  unfold d_step1, r_step1. rewrite Hax.
-  rewrite (filter_test_agrees m t t').
-  2:{ intros c Hc. apply test_agrees; [exact Ht|]. apply negb_true_iff in Hdc.
-      destruct (doc_passes_wrongly t); [|apply andb_false_r]. rewrite andb_true_r in Hdc |- *.
-      destruct (is_doc c) eqn:Hd; [|reflexivity]. rewrite <- Hdc. symmetry. apply existsb_exists. eauto. }
+  apply andb_prop in Hok as [Hpo Hhz].
+  unfold d_step1, r_step1. rewrite (axis_agrees D a a' n Ha).
+  rewrite (filter_test_agrees m t t') by (intros c _; apply test_agrees; exact Ht).
   cbn [bind]. apply apply_preds_agrees; [exact Hpo|]. rewrite forallb_forall in Hhz. exact Hhz.
 Qed.
 
@@ -550,26 +546,32 @@ Proof.
   exists (rp :: re), (o1 ++ o2). rewrite Hx, Hxe, Hd, Hde. cbn. rewrite Hr, Hre. auto.
 Qed.
 
-Lemma is_doc_dedup l : existsb is_doc (dedup l) = existsb is_doc l.
+(* skipping the root node commutes with de-duplication *)
+Lemma dedup_aux_filter (f : nd -> bool) (fp : npath -> bool) : (forall x, f x = fp (fst x)) ->
+  forall l seen seen', (forall p, fp p = true -> path_mem p seen = path_mem p seen') ->
+  dedup_aux seen' (filter f l) = filter f (dedup_aux seen l).
 Proof.
-  destruct (existsb is_doc l) eqn:E.
-  - apply existsb_exists in E as (x & Hx & Hd). apply dedup_complete_fst in Hx.
-    apply in_map_iff in Hx as (y & Hy & Hin). apply existsb_exists. exists y. split; [exact Hin|].
-    unfold is_doc in *. rewrite Hy. exact Hd.
-  - destruct (existsb is_doc (dedup l)) eqn:E'; [|reflexivity].
-    apply existsb_exists in E' as (x & Hx & Hd). apply dedup_subset in Hx.
-    assert (existsb is_doc l = true) by (apply existsb_exists; eauto). congruence.
+  intros Hf. induction l as [|x l IH]; intros seen seen' H; [reflexivity|]. cbn [filter dedup_aux].
+  destruct (f x) eqn:Fx.
+  - cbn [dedup_aux]. rewrite <- (H (fst x)) by (rewrite <- Hf; exact Fx).
+    destruct (path_mem (fst x) seen); [apply IH; exact H|].
+    cbn [filter]. rewrite Fx. f_equal. apply IH. intros p Hp. cbn. rewrite (H p Hp). reflexivity.
+  - destruct (path_mem (fst x) seen); [apply IH; exact H|]. cbn [filter]. rewrite Fx. apply IH.
+    intros p Hp. cbn. destruct (path_eqb p (fst x)) eqn:E; [|apply H; exact Hp].
+    apply path_eqb_eq in E. subst p. rewrite <- Hf, Fx in Hp. discriminate.
 Qed.
+Lemma dedup_filter_nondoc l :
+  dedup (filter (fun n => negb (is_doc n)) l) = filter (fun n => negb (is_doc n)) (dedup l).
+Proof. apply (dedup_aux_filter _ (fun p => negb (null p))); [reflexivity|auto]. Qed.
 
 (* The main statement: on in_subset the evaluator returns without a fault exactly the node list the reference
-   semantics assigns to the deviated expression, and no node twice. *)
+   semantics assigns to the deviated expression, minus the root node (which no result can contain), and no node twice. *)
 Lemma eval_is_ref D m e ctx : in_subset D m e ctx = true ->
-  exists re l, deviate m e = Some re /\ eval D m e ctx = Ok l /\ ref_eval D m re ctx = Some l /\ NoDup (map fst l).
+  exists re r, deviate m e = Some re /\ ref_eval D m re ctx = Some r /\
+               eval D m e ctx = Ok (filter (fun n => negb (is_doc n)) r) /\ NoDup (map fst r).
 Proof.
-  unfold in_subset. intro H. apply andb_prop in H as [Hp Hr].
+  unfold in_subset. intro H. apply andb_prop in H as [Hp _].
   destruct (paths_agree D m e ctx Hp) as (re & out & Hx & Hd & Hrp).
-  unfold deviate in *. rewrite Hx in Hr. unfold ref_eval in Hr. rewrite Hrp in Hr. cbn in Hr.
-  exists re, (dedup out). split; [exact Hx|]. unfold eval, ref_eval. rewrite Hd, Hrp.
-  rewrite is_doc_dedup in Hr. apply negb_true_iff in Hr. rewrite Hr. cbn.
-  repeat split. apply dedup_NoDup_fst.
+  exists re, (dedup out). split; [exact Hx|]. unfold eval, ref_eval. rewrite Hd, Hrp. cbn [option_map].
+  split; [reflexivity|]. split; [rewrite dedup_filter_nondoc; reflexivity|apply dedup_NoDup_fst].
 Qed.
